@@ -424,6 +424,37 @@ func vgenInputs(r *vrand, nExact, nEdit, nScen, nMal int) []vinput {
 			vinput{id: fmt.Sprintf("ver%d", i), data: []byte(strings.Replace(strings.Replace(t, "Version 2", "Version 7", 1), "version 2", "version 7", 1))},
 			vinput{id: fmt.Sprintf("les%d", i), data: []byte(strings.Replace(strings.Replace(t, "Lesser", "Library", 2), "GNU General", "GNU Lesser General", 1))})
 	}
+	// a verbatim fragment of a document, unrelated text, then the whole document with every 12th-18th
+	// word replaced: the longest single run belongs to the fragment, the claim with most tokens (fused
+	// from many short runs) to the full copy — the order of the fused claims matters
+	for i, d := range vpick(r.fork(5), nEdit/3+2) {
+		rr := r.fork(uint64(290 + i))
+		ws := strings.Fields(string(d.data))
+		if len(ws) < 150 {
+			continue
+		}
+		fl := 40 + rr.intn(40)
+		at := rr.intn(len(ws) - fl)
+		var sb strings.Builder
+		sb.WriteString(strings.Join(ws[at:at+fl], " ") + "\n" + voovBlock(rr, 2+rr.intn(3)))
+		step := 12 + rr.intn(7)
+		for j, w := range ws {
+			if j%step == step-1 {
+				w = voovWords[rr.intn(len(voovWords))]
+			}
+			sb.WriteString(w)
+			if j%10 == 9 {
+				sb.WriteByte('\n')
+			} else {
+				sb.WriteByte(' ')
+			}
+		}
+		sb.WriteByte('\n')
+		if i%2 == 1 { // and the other way round
+			sb.WriteString(voovBlock(rr, 2) + strings.Join(ws[at:at+fl], " ") + "\n")
+		}
+		outInputs = append(outInputs, vinput{id: fmt.Sprintf("f%d", i), data: []byte(sb.String())})
+	}
 	for i := 0; i < nScen && i < len(vscen); i++ {
 		out = append(out, vinput{id: fmt.Sprintf("s%d", i), data: vscen[(i+int(vseed()))%len(vscen)].data})
 	}
